@@ -391,7 +391,7 @@ func (e *Engine) endPath(st *State, cut string) {
 	if e.Hooks.OnPathEnd != nil {
 		e.Hooks.OnPathEnd(e, st)
 	}
-	if cut == "" && e.SamplePaths > 0 {
+	if cut == "" && e.SamplePaths > 0 && !st.NoReplay {
 		e.mu.Lock()
 		take := len(e.Samples) < e.SamplePaths && st.ID%7 == len(e.Samples)%7
 		e.mu.Unlock()
